@@ -80,6 +80,10 @@ def judge(case, run, world, callers):
             if refused_first and out is not None and not world.fired_faults:
                 # (with an injected network fault in the same run the re-sent request may legitimately fail)
                 if len(tx) == 1 or out["exc"] is not None:
+                    # the GOAWAY that refused THIS transmission (other connections of the run - e.g. the probe's - may have seen their own)
+                    g_own = getattr(world.pipes[tx[0][0]].peer.leaf(), "h2", None)
+                    goaway = g_own.goaway_sent if g_own is not None and g_own.goaway_sent is not None else goaway
+                    base = dict(base, goaway="zero" if goaway and goaway["last"] == 0 else "nonzero")
                     vio.append(V(P, "refused-not-resent", f"{what}: GOAWAY(last_stream_id={goaway and goaway['last']}) refused stream {tx[0][1]} carrying {tok} - the "
                                  f"server provably did not process it - but the call was not transparently re-sent: {len(tx)} transmission(s), outcome "
                                  f"{out['exc']['type'] if out['exc'] else out.get('status')}" + (f" raised in {out['exc'].get('inner')}" if out["exc"] else ""),
